@@ -894,13 +894,14 @@ func AdoptSession(p Persistence, c *Config) (client *Client, warn []error, fatal
 	}
 
 	// instantiate client
-	if n := len(publishAtLeastOnceKeys); n > c.AtLeastOnceMax {
-		return nil, warn, fmt.Errorf("mqtt: %d AtLeastOnceMax is less than the %d pending in session", c.AtLeastOnceMax, n)
-	}
-	if n := len(publishExactlyOnceKeys) + len(publishReleaseKeys); n > c.ExactlyOnceMax {
-		return nil, warn, fmt.Errorf("mqtt: %d ExactlyOnceMax is less than the %d pending in session", c.ExactlyOnceMax, n)
-	}
 	client = newClient(&ruggedPersistence{Persistence: p}, c)
+	// compare with the effective limits (negative means default)
+	if n := len(publishAtLeastOnceKeys); n > client.AtLeastOnceMax {
+		return nil, warn, fmt.Errorf("mqtt: %d AtLeastOnceMax is less than the %d pending in session", client.AtLeastOnceMax, n)
+	}
+	if n := len(publishExactlyOnceKeys) + len(publishReleaseKeys); n > client.ExactlyOnceMax {
+		return nil, warn, fmt.Errorf("mqtt: %d ExactlyOnceMax is less than the %d pending in session", client.ExactlyOnceMax, n)
+	}
 
 	// check for outbound publish pending confirmation
 	if keys = publishAtLeastOnceKeys; len(keys) != 0 {
